@@ -167,4 +167,65 @@ def plainDemoOps : List Op := (List.range 14).map (fun k => Op.deliver (k + 1))
 
 example : (run plainDemo plainDemoOps).queue = [] ∧ (run plainDemo plainDemoOps).wfStatus = .terminal := by decide
 
+/-! ### the stage-status rule (`StageExecution.determine_status`, tasks only): finished only when the tasks are -/
+
+/-- a task status with work outstanding -/
+def openTask (t : Status) : Bool :=
+  t == .notStarted || t == .running || t == .paused || t == .buffered || t == .suspended
+
+/-- **A stage is reported SUCCEEDED only when every one of its tasks succeeded or was skipped** - for every task list,
+    every current status, every stage configuration. -/
+theorem stage_succeeded_means_every_task_ok (sc : StageCfg) (cur : Status) (ts : List Status) (hne : ts ≠ [])
+    (h : determineStatus sc cur ts = .succeeded) :
+    ∀ t ∈ ts, t = .succeeded ∨ t = .skipped := by
+  have hemp : ts.isEmpty = false := by cases ts <;> simp_all
+  unfold determineStatus at h
+  simp only [hemp, Bool.false_eq_true, ↓reduceIte] at h
+  intro t ht
+  (repeat' split at h) <;> simp_all [failureStatus]
+  · split at h
+    · cases h
+    · split at h <;> cases h
+  · rename_i h1 h2
+    rcases h1 t ht with (h3 | h3) | h3
+    · exact Or.inl h3
+    · exact Or.inr h3
+    · exact absurd (h3 ▸ ht) h2
+
+/-- **A stage with tasks is given a completed status only when no task has work outstanding, or a task has halted**
+    (TERMINAL / STOPPED / CANCELED task: the stage ends with the failure status and CancelStage / the sweep deal with
+    the rest).  So CompleteStage never turns a stage with a NOT_STARTED, RUNNING, PAUSED, BUFFERED or SUSPENDED task
+    into SUCCEEDED / FAILED_CONTINUE / SKIPPED behind that task's back. -/
+theorem stage_complete_means_no_open_task_or_a_halted_one (sc : StageCfg) (cur : Status) (ts : List Status) (hne : ts ≠ [])
+    (h : (determineStatus sc cur ts).isComplete = true) :
+    (∀ t ∈ ts, openTask t = false) ∨ ts.contains .terminal = true ∨ ts.contains .stopped = true ∨ ts.contains .canceled = true := by
+  have hemp : ts.isEmpty = false := by cases ts <;> simp_all
+  unfold determineStatus at h
+  simp only [hemp, Bool.false_eq_true, ↓reduceIte] at h
+  by_cases h1 : ts.contains .terminal = true
+  · exact Or.inr (Or.inl h1)
+  by_cases h2 : ts.contains .stopped = true
+  · exact Or.inr (Or.inr (Or.inl h2))
+  by_cases h3 : ts.contains .canceled = true
+  · exact Or.inr (Or.inr (Or.inr h3))
+  left
+  simp only [h1, h2, h3, Bool.false_eq_true, ↓reduceIte] at h
+  intro t ht
+  (repeat' split at h) <;> simp_all [openTask, Status.isComplete]
+  all_goals (
+    rename_i h4 _
+    rcases h4 t ht with (h5 | h5) | h5 <;> subst h5 <;> decide)
+
+/-- a stage without tasks: SUCCEEDED when it is RUNNING (it was started and has nothing to do), NOT_STARTED otherwise -/
+theorem taskless_stage_status (sc : StageCfg) (cur : Status) :
+    determineStatus sc cur [] = if cur = .running then .succeeded else .notStarted := by
+  cases cur <;> simp [determineStatus]
+
+-- non-vacuity: the hypotheses are met by concrete task lists, and the excluded cases really differ
+example : determineStatus default .running [.succeeded, .skipped] = .succeeded := by decide
+example : determineStatus default .running [.succeeded, .failedContinue] = .failedContinue := by decide
+example : (determineStatus default .running [.succeeded, .running]).isComplete = false := by decide
+example : (determineStatus default .running [.terminal, .running]).isComplete = true := by decide   -- the halted-task disjunct
+example : determineStatus { (default : StageCfg) with cont := true } .running [.terminal, .notStarted] = .failedContinue := by decide
+
 end Stab.Props.C05
